@@ -7,6 +7,7 @@ setup: coq model harness
 coq:
 	mkdir -p build
 	python3 tools/gen_params.py --repo /repo --out coq/Params.v --json build/params.json
+	python3 tools/rs2coq.py --repo /repo --outdir coq/Gen
 	cd coq && coq_makefile -f _CoqProject -o Makefile.coq
 	cd coq && timeout 3000 $(MAKE) -f Makefile.coq -j16 -k
 
